@@ -38,20 +38,20 @@ TEXTS = {
         "level_note": _TRUST + "Collation precondition (primary weights of p+s start with those of p) is checked per query with an independent primary-strength collator; violating queries are carved out and counted. " + _DOMAIN,
     },
     "C05": {
-        "technique": "model-based stateful property testing; extremes and TopK/BottomK vs. sorted model incl. empty/singleton/emptied trees",
+        "technique": "model-based stateful property testing; extremes and TopK/BottomK vs. sorted model incl. empty/singleton/emptied trees, nested wide nodes and scale histories (66k+ entries)",
         "design_ref": "DESIGN.md §4 C05",
         "level_text": "Histories over all kinds with Minimum/Maximum and TopK/BottomK(n) for n in {0,1,size-1,size,size+1,size+17,2^32,random}, (plus 2^31, 2^63 and MaxUint) on never-filled, singleton, emptied and large-fan-out trees (audited right after a node reaches 256 children), compared with the first/last elements of the sorted model.",
         "level_note": _TRUST + _DOMAIN,
     },
     "C06": {
-        "technique": "model-based stateful property testing; Size() checked after every op against model, All() count and reachable leaves",
+        "technique": "model-based stateful property testing; Size() checked after every op against model, All() count and reachable leaves; scale histories growing one tree past 2^16 entries and emptying it",
         "design_ref": "DESIGN.md §4 C06",
         "level_text": "Size() is compared after every single operation with the model cardinality, the number of pairs All() yields and the number of leaves the hook walker reaches; insertion paths (empty tree, leaf split, inline and >10-byte path split, child add) are classified from consecutive dumps and all occur per run.",
         "level_note": _TRUST + _DOMAIN,
     },
     "C07": {
         "engine": "enumerative",
-        "technique": "exhaustive enumeration in value order (8/16-bit quick, 32-bit thorough) + boundary sweeps + rapid-generated pairs/tuples against native comparison",
+        "technique": "exhaustive enumeration in value order (8/16-bit quick, 32-bit thorough) + boundary sweeps + dictionary of the library's source literals (and bit-operation neighbours) + rapid-generated pairs/tuples against native comparison",
         "design_ref": "DESIGN.md §4 C07",
         "level_text": "Every value of the 8/16-bit types (quick) and of uint32/int32/float32 (thorough, 2^32 each, sharded) is walked in value order: fixed length, bit-exact round trip and strict byte-order monotonicity on every adjacent pair, which on a finite total order is injectivity plus order isomorphism; 64-bit types get 2^16..2^20-value sweeps around each boundary, all/sampled NaN patterns, generated pairs and generated 2..4-field tuples; the whole run is repeated under GOARCH=386. The enumerated sub-domains are exhaustive; the rest is exploration.",
         "level_note": "Oracle is native Go comparison (integers <, floats IsNaN/Signbit/<), never a go-art function; the rank enumeration that produces neighbours is validated against it. 64-bit types are sampled.",
@@ -88,13 +88,13 @@ TEXTS = {
         "level_note": _TRUST + "Pool traffic between trees is measured (class census per op), not assumed. " + _DOMAIN,
     },
     "C13": {
-        "technique": "stateful property testing with caller-owned arena slices (spare capacity, buffer reuse) and byte-exact arena comparison",
+        "technique": "stateful property testing with caller-owned arena slices (spare capacity up to 60 bytes, buffer reuse) and byte-exact arena comparison on byte-string, collation and pass-through-codec compound trees",
         "design_ref": "DESIGN.md §4 C13",
         "level_text": "Every []byte key argument is a sub-slice (offset 0..8, spare capacity 0..3 holding live pattern bytes) of one arena reused for all calls; the arena must be byte-identical after each Insert/Search/Delete/Prefix/Range, is then overwritten, and the tree must still hold exactly the model. What surrounds the key in the buffer is drawn (live pattern, zeros, a zero right behind the key, 0xff).",
         "level_note": _TRUST + _DOMAIN,
     },
     "C14": {
-        "technique": "stateful property testing; sequences driven directly with a yield function that stops at a generated position, then re-iterated",
+        "technique": "stateful property testing; sequences driven directly with a yield function that stops at a generated position, then re-iterated, also from inside a running pass (nested consumers)",
         "design_ref": "DESIGN.md §4 C14",
         "level_text": "For All, Backward, Prefix, Range, TopK, BottomK on generated trees a sequence value is abandoned after a drawn number of elements (late callbacks are counted, not crashed on) and then iterated completely 1..3 times; every pass must equal a complete pass over a freshly obtained sequence; in half of the cases other read-only calls run between the passes. The closures try every stop position for every method in every reachable state.",
         "level_note": _TRUST + _DOMAIN,
